@@ -16,6 +16,8 @@ import (
 	"time"
 
 	"github.com/echovault/sugardb/internal"
+	sraft "github.com/echovault/sugardb/internal/raft"
+	hraft "github.com/hashicorp/raft"
 )
 
 // VerifFloatPrefix marks floating point numbers in deep dumps.
@@ -372,6 +374,28 @@ func (server *SugarDB) VerifRaftLast() uint64    { return server.raft.VerifLastI
 func (server *SugarDB) VerifRaftState() string   { return server.raft.VerifState() }
 func (server *SugarDB) VerifRaftPeers() int      { return server.raft.VerifNumPeers() }
 func (server *SugarDB) VerifInCluster() bool     { return server.isInCluster() }
+
+// VerifFSMSnapshotBegin / VerifFSMSnapshotFinish: FSM.Snapshot now; later (after more entries have been applied) Persist,
+// and the bytes are restored on dst with FSM.Restore - the order in which raft itself calls these.
+var verifPendingSnapshot interface {
+	Persist(sink hraft.SnapshotSink) error
+	Release()
+}
+
+func (server *SugarDB) VerifFSMSnapshotBegin() error {
+	snap, err := server.raft.VerifFSMSnapshot()
+	verifPendingSnapshot = snap
+	return err
+}
+
+func (server *SugarDB) VerifFSMSnapshotFinish(dst *SugarDB, msec int64) error {
+	data, err := sraft.VerifPersist(verifPendingSnapshot, msec)
+	verifPendingSnapshot = nil
+	if err != nil {
+		return err
+	}
+	return dst.raft.VerifFSMRestore(data)
+}
 
 // VerifRaftSnapshotTo: a real raft snapshot of this node, restored on dst through raft.
 func (server *SugarDB) VerifRaftSnapshotTo(dst *SugarDB) error {
